@@ -44,11 +44,11 @@ LOSSES = ["l2_amplitude", "l1_amplitude", "l2_intensity", "l1_intensity"]
 # a predicted or preprocessed amplitude is k * eps32 * a0 / sqrt(Npix) per pixel with k of order 1..10
 # (FFT chains of <= 4 slices).  Summed over J patterns and normalised by the mean intensity this gives
 # the scalings below; K_* are the head-room factors over the largest value measured on the clean tree.
-K_L2_AMP = 2e-10  # * J                      measured max 1.6e-13 * J
+K_L2_AMP = 4e-11  # * J                      measured max 1.6e-13 * J
 K_L1_AMP = 2e-5  # * J * sqrt(Npix / Imean)  measured max 2.2e-7
-K_L2_INT = 2e-11  # * J * Imean              measured max 1.0e-14 (per unit of peak/mean ratio, see below)
+K_L2_INT = 4e-12  # * J * Imean              measured max 1.0e-14 (per unit of peak/mean ratio, see below)
 K_L1_INT = 1e-4  # * J                       measured max 8e-7
-REL_REF = 2e-3  # library loss vs reference loss at a perturbed point (relative)
+REL_REF = 2e-4  # library loss vs reference loss at a perturbed point (relative)
 GRAD_RATIO = 1e-3  # |grad L|(truth) <= GRAD_RATIO * |grad L|(perturbed), l2 losses
 VISIBLE = 1e3  # the reference loss at a perturbed point must exceed VISIBLE * tol to be asserted on
 
@@ -73,6 +73,14 @@ def truth_tol(loss_type, J, npix, imean, peak_ratio=1.0):
 STATS = {}
 
 
+def _open(ctx, key):
+    """Known finding registered as open (known_findings.json), or assumed open through the environment
+    (development hook: VQ_ASSUME_OPEN=key1,key2)."""
+    import os
+
+    return ctx.is_open(key) or key in os.environ.get("VQ_ASSUME_OPEN", "").split(",")
+
+
 def _stat(key, value):
     if value > STATS.get(key, -1.0):
         STATS[key] = float(value)
@@ -93,7 +101,7 @@ def _fl(lo, hi, nd=4):
 
 
 def _roi_side():
-    return st.one_of(st.integers(6, 16), st.sampled_from([6, 7, 8, 9, 12, 16]))
+    return st.sampled_from([6, 7, 8, 9, 10, 11, 12, 13, 14, 15, 16, 6, 7, 8, 9, 12, 16])
 
 
 def _safe_step(a, g):
@@ -111,8 +119,8 @@ def _safe_step(a, g):
 @st.composite
 def cases(draw, even_only=False):
     R, C = draw(_roi_side()), draw(_roi_side())
-    if draw(st.integers(0, 3)) == 0:
-        C = R  # square ROIs are a quarter of the cases at least
+    if draw(st.integers(0, 5)) == 0:
+        C = R  # make sure square ROIs stay represented
     if even_only:
         R += R % 2
         C += C % 2
@@ -146,7 +154,6 @@ def cases(draw, even_only=False):
         },
         "pad": [draw(st.integers(0, 6)), draw(st.integers(0, 6))],
         "descan": draw(st.sampled_from(["A", "A", "B_constant", "B_plane"])),
-        "clip": draw(st.sampled_from([True, True, True, False])),
         "loss": draw(st.sampled_from(LOSSES)),
         "batch": batch,
         "pert": {
@@ -253,11 +260,11 @@ def check(ctx, case):
     if np.any(np.abs(np.abs(frac) - 0.5) < 2e-3):
         ctx.record(case, False, classes + ["skipped:half_pixel_position"])
         return
-    if outside and case.get("clip", True) and ctx.is_open(KEY_CLIP):
+    if outside and case.get("clip", True) and _open(ctx, KEY_CLIP):
         ctx.exclude(KEY_CLIP)
         ctx.record(case, False, classes + ["skipped:" + KEY_CLIP])
         return
-    if odd and case["descan"] == "A" and ctx.is_open(KEY_ODD):
+    if odd and case["descan"] == "A" and _open(ctx, KEY_ODD):
         ctx.exclude(KEY_ODD)
         ctx.record(case, False, classes + ["skipped:" + KEY_ODD])
         return
@@ -369,7 +376,7 @@ def check(ctx, case):
 
 def search(ctx):
     even_only = False
-    n = ctx.n(110, 1500)
+    n = ctx.n(300, 3000)
     core.run_given(ctx, "c02", cases(even_only=even_only), lambda c: check(ctx, c), n, shrink=False)
     for k, v in STATS.items():
         ctx.extra["max " + k] = float("%.4g" % v)
